@@ -20,13 +20,13 @@ func init() {
 		ID:        "C17",
 		Level:     "exploration",
 		Technique: "exhaustive enumeration of all decorator nestings up to a depth bound, each executed on the real ErrorCode / live session and compared with an independent outermost-first reference walk",
-		Rule: "every sequence (innermost first) of length <= depth over 18 decorator letters {2 codes, 2 severities, 2 hints, 2 details, 2 constraint names, 5 source locations + 2 with an empty file / function, fmt %w wrap} x 3 base texts, plus the nil error; " +
+		Rule: "every sequence (innermost first) of length <= depth over 22 decorator letters {2 codes, 2 severities, 2 hints, 2 details, 2 constraint names, 5 source locations + 2 with an empty file / function, 4 default- or empty-valued decorations, fmt %w wrap} x 4 base texts (incl. the empty text), plus the nil error; " +
 			"a case is non-trivial when it carries at least one decoration; distinct = distinct (base, shape)",
 		Assumptions: []string{"decoration values are non-empty and NUL-free", "a ReadyForQuery after the ErrorResponse written by ErrorCode is tolerated, not required"},
 		Enumerate:   c17Enumerate,
 		Bounds: func(tier string) map[string]any {
 			d, sd := c17Depth(tier)
-			return map[string]any{"nesting_depth_direct": d, "nesting_depth_session": sd, "letters": 18, "bases": len(errBases)}
+			return map[string]any{"nesting_depth_direct": d, "nesting_depth_session": sd, "letters": 22, "bases": len(errBases)}
 		},
 		RequiredOutcomes: []string{"plain", "decorated", "nil-error"},
 	})
